@@ -49,7 +49,7 @@ func init() {
 			"eof:between-frames", "eof:mid-frame", "epipe:header-write", "epipe:body-write(torn-frame)", "garbage-frame",
 			"publish-with-diagnostics", "publish-empty", "diagnostic-after-non-ascii-prefix",
 			"definition-nonempty", "definition-empty", "definition-error", "definition-request-cancelled", "definition-location-after-non-ascii-prefix", "definition-refinement-checked",
-			"idle-obligations-checked",
+			"idle-obligations-checked", "compiler-warning-logged",
 		},
 	}
 }
